@@ -917,6 +917,32 @@ impl Api for Server {
       return Ok(false);
     }
 
+    // Verification hook (feature `verif`): Bitcoin Core's `lockunspent`
+    // rejects outputs locked by an earlier call, but accepts the same output
+    // listed twice in one call.
+    #[cfg(feature = "verif")]
+    if cfg!(feature = "verif") {
+      let outputs = outputs
+        .iter()
+        .map(|output| OutPoint {
+          vout: output.vout,
+          txid: output.txid,
+        })
+        .collect::<Vec<OutPoint>>();
+
+      if outputs.iter().any(|output| state.locked.contains(output)) {
+        return Err(jsonrpc_core::Error {
+          code: jsonrpc_core::ErrorCode::ServerError(-8),
+          message: "Invalid parameter, output already locked".into(),
+          data: None,
+        });
+      }
+
+      state.locked.extend(outputs);
+
+      return Ok(true);
+    }
+
     for output in outputs {
       let output = OutPoint {
         vout: output.vout,
